@@ -50,8 +50,8 @@ func vbAssumeFreshPkgEl(pkg, name string, els []vbPkgEl) {
 
 var vbPathPool = []string{"a.proto", "b.proto", "c.proto"}
 
-// VerifLemma_C03E_PackageElements: the four PACKAGE_<kind>_NO_DELETE rules over 1..2 previous and 0..2 current
-// files (paths from a pool of three, symbolic one-letter packages), each file with 0..1 element of the chosen kind
+// VerifLemma_C03E_PackageElements: the four PACKAGE_<kind>_NO_DELETE rules (param KIND) over 1..2 previous
+// (a.proto, b.proto) and 0..2 current files (a.proto or c.proto; b.proto), symbolic one-letter packages, each file with 0..1 element of the chosen kind
 // (nested names of 1..ND symbolic levels), current files optionally with one more message. Documented: an element
 // whose (package, nested name) is gone while its package still exists is reported exactly once, against the previous
 // element, located at the surviving enclosing message if there is one (else: no location; the path of the current
@@ -59,7 +59,7 @@ var vbPathPool = []string{"a.proto", "b.proto", "c.proto"}
 // PACKAGE_NO_DELETE.
 func VerifLemma_C03E_PackageElements() {
 	nd := verifParam("ND")
-	kind := verifNondetChoice(4)
+	kind := verifParam("KIND") // 0 enum, 1 extension, 2 message, 3 service (one registered lemma per kind)
 	np := verifNondetChoice(2) + 1
 	nc := verifNondetChoice(3)
 	req := &vbReq{}
@@ -75,11 +75,12 @@ func VerifLemma_C03E_PackageElements() {
 	}
 	var curFiles []*vFile
 	var curMsgs []vbPkgEl // all current messages (kind 2: the elements themselves)
-	used := 0
 	for i := 0; i < nc; i++ {
-		// distinct paths: current file i takes a pool entry after the previous one
-		k := used + verifNondetChoice(len(vbPathPool)-used-(nc-1-i))
-		used = k + 1
+		// current file 0 is a.proto or the new c.proto, current file 1 is b.proto
+		k := i
+		if i == 0 && verifNondetChoice(2) == 1 {
+			k = 2
+		}
 		f := &vFile{path: vbPathPool[k], pkg: vbNondetLetter()}
 		req.cur = append(req.cur, f)
 		curFiles = append(curFiles, f)
@@ -92,7 +93,7 @@ func VerifLemma_C03E_PackageElements() {
 				curMsgs = append(curMsgs, el)
 			}
 		}
-		if kind < 2 && verifNondetChoice(2) == 1 {
+		if kind < 2 && nd > 1 && verifNondetChoice(2) == 1 {
 			n := vbNondetNested(nd)
 			vbAssumeFreshPkgEl(f.pkg, n, curMsgs)
 			curMsgs = append(curMsgs, vbAddPkgEl(2, f, n))
